@@ -534,9 +534,16 @@ class Check:
             if klass not in self.known_seen:
                 lines.append("KNOWN-FINDING: property=%s %s: %s (listed; not exercised by this run)" % (self.prop, klass, k["what"]))
         nviol = 0
-        stale = os.path.join(EVIDENCE, "replay", "%s_all_violations.txt" % self.prop)
-        if os.path.exists(stale):
-            os.remove(stale)
+        # replay files of earlier runs of this property are stale now: remove them before writing this run's
+        rdir = os.path.join(EVIDENCE, "replay")
+        if os.path.isdir(rdir):
+            for fn in os.listdir(rdir):
+                if fn == "%s_all_violations.txt" % self.prop or fn == "%s_unproved.json" % self.prop or \
+                        re.fullmatch(r"%s_violation\d+\.json" % re.escape(self.prop), fn):
+                    try:
+                        os.remove(os.path.join(rdir, fn))
+                    except OSError:
+                        pass
         if self.violations:
             for i, (what, replay) in enumerate(self.violations[:5]):
                 path = self.write_replay("violation%d" % i, {"what": what, "replay": replay})
